@@ -424,6 +424,22 @@ class Interp:
                 return Comp()
         if name == "len":
             return Const(None)
+        meths = getattr(self, "methods", None) or {}
+        if isinstance(fn, ast.Attribute) and isinstance(fn.value, ast.Name) and fn.value.id == "self" and name in meths and getattr(self, "_depth", 0) < 2 \
+                and len(e.args) == 1 and isinstance(e.args[0], ast.Name) and not e.keywords:
+            # a helper method of the class that is handed the system: interpret its body
+            h = meths[name]
+            hp = [a.arg for a in h.args.args]
+            if len(hp) == 2:
+                self._depth = getattr(self, "_depth", 0) + 1
+                try:
+                    states, results = self.run(h.body, {hp[0]: Const(None), hp[1]: Const(None)})
+                finally:
+                    self._depth -= 1
+                kinds = [v for s_, ret, st_ in results for node_, v in ret]
+                if kinds and not states and all(type(k) is type(kinds[0]) for k in kinds):
+                    return kinds[0]
+                raise Undecidable(f"helper method {name}() returns values of different kinds")
         if args and all(isinstance(a, Box) for a in args) and isinstance(fn, ast.Name):
             # a helper applied to the box alone cannot depend on where the atoms are
             return Box()
@@ -560,9 +576,10 @@ class Interp:
         raise Undecidable(f"statement {type(st).__name__}")
 
 
-def analyse_calculate(func, index_len=None):
+def analyse_calculate(func, index_len=None, methods=None):
     """Returns (violations, n_paths, n_returns). Raises Undecidable."""
     it = Interp(index_len)
+    it.methods = methods or {}
     params = [a.arg for a in func.args.args]
     env = {}
     if len(params) < 2:
